@@ -84,6 +84,7 @@ pub fn golden(a: &Args) -> i32 {
             commits: 0,
             states: false,
             max_readers: 1,
+            reader_churn: 0,
             hashes: false,
             p_rollback: 6,
         };
